@@ -137,7 +137,13 @@ func (g *Gen) NsCase(n NsNames, db, coll, verb, carrier string, depth int) *Case
 	if verb == "getMore" {
 		carrier = "command"
 	}
-	return g.Case(CaseOpts{Verb: verb, Carrier: carrier, Comp: Comps[g.R.Intn(3)], DB: db, Coll: coll, Cmd: cmd})
+	attrNs := ""
+	if coll != "$cmd" && carrier != "originatingCommand" && verb != "getMore" && g.chance(0.12) {
+		// commands are logged under the command namespace "<db>.$cmd" by many server versions (write
+		// commands, findAndModify, count ...): attr.ns then does NOT name the collection the verb names
+		attrNs = db + ".$cmd"
+	}
+	return g.Case(CaseOpts{Verb: verb, Carrier: carrier, Comp: Comps[g.R.Intn(3)], DB: db, Coll: coll, Cmd: cmd, AttrNs: attrNs})
 }
 
 // NsLog builds a multi-line log mixing 2–6 namespaces of one pool.
